@@ -14,7 +14,7 @@ PID = "C20"
 THEOREMS = ["binnify_eq_spec", "tilingSpec_get", "tilingSpec_last_stop", "getBinsize_truthful",
             "getBinsize_complete", "getChromsizes_mem", "getChromsizes_nodup", "binnify_roundtrip", "binnify_regrid"]
 LEVELS = {"binnify": "top", "binsize_truthful": "top", "chromsizes": "top", "binsize_unit": "unit",
-          "makebins_cli": "top", "cooler_binsize": "top", "regrid": "top"}
+          "makebins_cli": "top", "parse_bins_bed": "top", "cooler_binsize": "top", "regrid": "top"}
 DESCRIBE = {
     "binnify": "cooler.util.binnify(sizes, b) vs Lean `binnify` (= `binnifySpecFrom`, theorem binnify_eq_spec), the size table given as a "
                "Series of every integer dtype that holds it and of Python ints, the width as int / numpy integer",
@@ -24,6 +24,8 @@ DESCRIBE = {
     "binsize_unit": "cooler.util.get_binsize(bins) vs Lean `getBinsize bins`",
     "chromsizes": "cooler.util.get_chromsizes(bins) vs Lean `getChromsizes` (ends of last bins)",
     "makebins_cli": "`cooler makebins` output vs Lean `binnify`",
+    "parse_bins_bed": "cli `parse_bins(<BED file of bins>)`: table = the file's rows, chromosome sizes = Lean `getChromsizes` (ends of the last "
+                      "bins); a missing file, `<missing>:<b>`, `<file>:<non-integer>` are refused",
     "cooler_binsize": "Cooler.binsize / info['bin-type'] / info['bin-size'] of a created cooler vs Lean `getBinsize`, truthful",
 }
 RULE = ("binnify: every size table with <=2 (quick) / <=3 (thorough) chromosomes of length 1..12 x width 1..13, each in every "
@@ -275,6 +277,37 @@ def _makebins_cli(case):
     return None
 
 
+def _parse_bins_bed(case):
+    """cli `parse_bins(BINS)` given a BED file of bins (every loader's `<bins path>` form): the table is the file's rows and the
+    chromosome sizes are the ends of the last bins (Lean `getChromsizes`); malformed BINS arguments are refused"""
+    from cooler.cli._util import parse_bins
+    bins = case["bins"]
+    names = [gen.chromname(c) for c in range(max(b[0] for b in bins) + 1)]
+    d = gen.tmpdir()
+    p = os.path.join(d, f"bins-{os.getpid()}.bed")
+    with open(p, "w") as f:
+        for c, s_, e_ in bins:
+            f.write(f"{names[c]}\t{s_}\t{e_}\n")
+    try:
+        m = drv().ask("C20.bininfo", bins=bins)
+        cs, df = impl(parse_bins, p)
+        got_bins = gen.df_bins(df, names)
+        got_cs = [[names.index(str(k)), int(v)] for k, v in cs.items()]
+        if got_bins != [list(b) for b in bins]:
+            return {"mismatch": True, "what": "bin table read from the BED file", "impl": got_bins, "given": bins}
+        if got_cs != m["chromsizes"]:
+            return {"mismatch": True, "what": "chromosome sizes inferred from the BED file", "impl": got_cs, "model": m["chromsizes"]}
+        # refusals: neither a file nor <file>:<binsize>; a missing chromsizes file; a bin size that is not an integer
+        for bad in (p + ".missing", p + ".missing:10", p + ":ten", p + ":"):
+            r = guarded(parse_bins, bad)
+            if r[0] == "ok":
+                return {"mismatch": True, "what": "malformed BINS argument accepted", "arg": bad.replace(d, "<tmp>")}
+        return None
+    finally:
+        if os.path.exists(p):
+            os.unlink(p)
+
+
 def _cooler_binsize(case):
     bins = case["bins"]
     df = gen.bins_df(bins)
@@ -304,7 +337,7 @@ def _cooler_binsize(case):
 
 
 CHECKS = {"binnify": _binnify, "binsize_truthful": _binsize_truthful, "binsize_unit": _binsize_unit,
-          "chromsizes": _chromsizes, "makebins_cli": _makebins_cli, "cooler_binsize": _cooler_binsize, "regrid": _regrid}
+          "chromsizes": _chromsizes, "makebins_cli": _makebins_cli, "parse_bins_bed": _parse_bins_bed, "cooler_binsize": _cooler_binsize, "regrid": _regrid}
 
 
 def nontrivial(name, case):
@@ -464,6 +497,8 @@ def cases(tier, rng):
     for k in range(40 if thorough else 8):
         sizes, b = near_limit_sizes(rng)
         yield "makebins_cli", {"sizes": sizes, "b": b}
+    for k in range(120 if thorough else 30):
+        yield "parse_bins_bed", {"bins": gen.random_segmentation(rng, rng.randint(1, 3), 12)}
 
 
 def shrink(name, case):
